@@ -1,5 +1,6 @@
 import Rtcm.Model.WF
 import Rtcm.Lemmas.Decode
+import Rtcm.Lemmas.Frame
 import Rtcm.Gen.Tables
 /-
   C15 — identity is the transmitted message number; unknown types are preserved.
@@ -126,5 +127,52 @@ theorem C15_string_range (n : Nat) (hn : n < 4096) :
 /-- non-vacuity -/
 example : (match identity [0x3e, 0xd0, 0] with | .ok id => decide (id = ⟨1005, none⟩) | _ => false) = true := by decide
 example : (match identity [254, 0xC0, 42] with | .ok id => decide (id = ⟨4076, some 21⟩) | _ => false) = true := by decide
+
+end Rtcm
+
+namespace Rtcm
+
+def df002FirstB (T : Tables) (fid : Nat) : Bool :=
+  (T.std ++ T.msm ++ T.igs).all fun e => match e.2 with
+    | .field x :: rest => x == fid && !(fidsItems' rest).contains fid
+    | _ => false
+
+theorem df002First_of_B (T : Tables) (fid : Nat) (h : df002FirstB T fid = true) :
+    ∀ e ∈ T.std ++ T.msm ++ T.igs, ∃ rest, e.2 = .field fid :: rest ∧ fid ∉ fidsItems' rest := by
+  intro e he
+  unfold df002FirstB at h
+  rw [List.all_eq_true] at h
+  have := h e he
+  split at this
+  · rename_i x rest hx
+    simp only [Bool.and_eq_true, beq_iff_eq, Bool.not_eq_true', ] at this
+    refine ⟨rest, by rw [hx, this.1], ?_⟩
+    intro hmem
+    have hc : (fidsItems' rest).contains fid = true := by simpa using hmem
+    rw [hc] at this
+    simp at this
+  · simp at this
+
+/-- in the current tables DF002 is field 8: a plain 12-bit unsigned field, the first entry of every
+    definition and named nowhere else in it -/
+theorem C15_df002_ok : DF002OK T15 8 ⟨[68, 70, 48, 48, 50], .uint, 12, .none⟩ where
+  special := by decide +kernel
+  field := by decide +kernel
+  ty := rfl
+  width := rfl
+  res := rfl
+  lt := by decide +kernel
+  n394 := by decide +kernel
+  n395 := by decide +kernel
+  n396 := by decide +kernel
+  n038 := by decide +kernel
+  first := df002First_of_B T15 8 (by decide +kernel)
+
+/-- **For implemented types the decoded message-number field equals the identity**: whatever the
+    rest of the payload contains, if the constructor succeeds on a defined type then attribute DF002
+    is the 12-bit number the identity was taken from. -/
+theorem C15_df002_is_identity (p : Bytes) (l : Nat) (m : Msg) (hc : construct T15 (some p) l = .ok m)
+    (hk : m.unknown = false) : m.attrs.get? (8, []) = some (.int m.id.num) :=
+  df002_is_identity T15 8 _ C15_df002_ok p l m hc hk
 
 end Rtcm
